@@ -222,7 +222,7 @@ def gen_model(rng, n_ops=None, sinks=True, cmds=None, table=None, metadata=False
     if metadata:
         for c in commands:
             if rng.random() < 0.4:
-                c["args"]["Metadata"] = {"DisplayName": rng.choice(["Layer one", "x", "Slope (deg)", "form\x0cfeed", "nel\x85 ls\u2028 ps\u2029", "vt\x0b fs\x1c", 'q"uote', "back\\slash"]),
+                c["args"]["Metadata"] = {"DisplayName": rng.choice(["Layer one", "x", "Slope (deg)", "form\x0cfeed", "nel\x85 ls\u2028 ps\u2029", "vt\x0b fs\x1c", 'q"uote', "back\\slash", "Distance to roads\n(metres)", "two lines\nR = Sum("]),
                                          "Color": rng.choice(["Blue", "#ff0000"])}
     m = {"table": table, "commands": commands}
     if libs != "csv":
